@@ -112,6 +112,12 @@ def discharge(obligs, timeout_ms, fr, func, realise=None):
             r3 = prove(o3, timeout_ms=min(timeout_ms, 10000), use_cvc5=False)
             if r3.verdict == "refuted":
                 r.model = r3.model
+                if getattr(realise, "nice", None):
+                    o4 = Oblig(o.id, list(o3.pc) + [_zb(h) for h in realise.nice], o.goal, o.kind, o.props, o.info)
+                    o4.schemas = getattr(o, "schemas", None)
+                    r4 = prove(o4, timeout_ms=min(timeout_ms, 10000), use_cvc5=False)
+                    if r4.verdict == "refuted":
+                        r.model = r4.model
         if r.verdict == "refuted" and getattr(o, "regions", None):
             # known-finding regions: is every counterexample inside a recorded region?
             for (fid, region) in o.regions:
@@ -274,4 +280,29 @@ def make_realiser(ex, contract, st0, recv, args):
         for b in dts[i + 1:]:
             hyps.append(_z3.Implies(a != b, idx_f(a) != idx_f(b)))
     realise.hyps = hyps
+    # "float-friendly" inputs (only to pick a counter-model that survives the passage from reals to doubles): multiples of 1/8 of moderate size
+    from .concrete import SEC_FLOATS, STRAT_FLOATS
+
+    nice = []
+
+    def _nice(v):
+        r = getattr(v, "r", None)
+        if r is None or not is_z3(r) or r.sort() != _z3.RealSort():
+            return
+        nice.append(_z3.IsInt(8 * r))
+        nice.append(_z3.And(r >= -100000, r <= 100000))
+        nice.append(_z3.Or(r == 0, r >= _z3.RealVal("1/8"), r <= -_z3.RealVal("1/8")))
+
+    for node, fields in ((recv, SEC_FLOATS if is_sec else STRAT_FLOATS), (par, STRAT_FLOATS)):
+        for f in fields:
+            try:
+                _nice(h.get(node, f))
+            except Exception:
+                pass
+    for (n, t), v in zip(contract.params, args):
+        if t in ("float", "real"):
+            _nice(v)
+        elif t == "optfloat":
+            _nice(v.val)
+    realise.nice = nice
     return realise
